@@ -4,6 +4,7 @@ import (
 	"bufio"
 	"context"
 	"encoding/binary"
+	"fmt"
 	"io"
 	"io/ioutil"
 	"log"
@@ -298,6 +299,10 @@ func readmsg(rd io.Reader, p []byte) (n int, err error) {
 	}
 
 	n += binary.Size(msize)
+	if msize < channelMessageHeaderSize {
+		// the size counts itself: anything smaller cannot be a frame.
+		return n, fmt.Errorf("p9p: invalid message size %d", msize)
+	}
 	mbody := int(msize) - 4
 
 	if mbody < len(p) {
